@@ -296,6 +296,51 @@ pub fn oracle(_ctx: &RunCtx, spec: &WipeSpec, log: &mut CaseLog) -> Result<(), S
             return Err("the seed held inline in a RangeStatement is still present after the statement was dropped".into());
         }
     }
+    // ---- a seed attached to an AGGREGATED statement through the public field (the constructor refuses it, the type does not)
+    if cfg.m >= 2 {
+        let sd = crate::gen::rand_scalar(&mut crate::gen::chacha(spec.bulk ^ 0xa66));
+        let mut boxed = Box::new(t.st.clone());
+        boxed.seed_nonce = Some(sd);
+        let raw: *mut RangeStatement<RistrettoPoint> = Box::into_raw(boxed);
+        let n = std::mem::size_of::<RangeStatement<RistrettoPoint>>();
+        let mut after = vec![0u8; n];
+        unsafe {
+            std::ptr::drop_in_place(raw);
+            for i in 0..n {
+                after[i] = std::ptr::read_volatile((raw as *const u8).add(i));
+            }
+            std::alloc::dealloc(raw as *mut u8, std::alloc::Layout::new::<RangeStatement<RistrettoPoint>>());
+        }
+        if find(&after, sd.as_bytes()) {
+            return Err(format!(
+                "the seed held inline in a RangeStatement with {} commitments is still present after the statement was dropped",
+                cfg.m
+            ));
+        }
+    }
+    // ---- a prove call refused EARLY because a blinding generator is the identity (degenerate public generator set)
+    {
+        let mut pc = R::pedersen(cfg.ext);
+        let last = cfg.ext - 1;
+        pc.g_base_vec[last] = <RistrettoPoint as curve25519_dalek::traits::Identity>::identity();
+        pc.g_base_compressed_vec[last] = pc.g_base_vec[last].compress();
+        let params = tari_bulletproofs_plus::range_parameters::RangeParameters::init(bits, cfg.cap, pc.clone()).map_err(|e| format!("{:?}", e))?;
+        let cs: Vec<RistrettoPoint> = t
+            .values
+            .iter()
+            .zip(t.blindings.iter())
+            .map(|(v, r)| pc.commit(&Scalar::from(*v), r).map_err(|e| format!("{:?}", e)))
+            .collect::<Result<_, _>>()?;
+        let st_deg = RangeStatement::init(params, cs, t.promises.clone(), t.seed).map_err(|e| format!("{:?}", e))?;
+        let mut tr = t.transcript();
+        let mut rng = tspec.rng.make();
+        alloc::capture_start();
+        let r = guarded(|| R::prove(&mut tr, &st_deg, &t.w, &mut rng).is_ok());
+        let c = alloc::capture_stop();
+        r?;
+        scan("prove refused because a blinding generator is the identity", c, &secrets, &mut stats)?;
+        drop(st_deg);
+    }
     if stats.1 == 0 {
         return Err(format!("{} no freed block of >= 32 bytes was observed", INCONCLUSIVE));
     }
@@ -319,10 +364,10 @@ pub fn def() -> PropertyDef {
         level: "exploration",
         rule: "A case is a configuration (8-64 bits, aggregation 1-16, capacity m..2m, degree 1-6) with high-entropy secrets (top-half uniform \
                values, uniform blindings, uniform seed) run on Ristretto under a tracking global allocator that copies every block passed to \
-               dealloc (the old block of a moving realloc included) while armed. Operations, each with its own capture window: prove; a prove call that is refused late (promise of the last aggregate member above its value); \
+               dealloc (the old block of a moving realloc included) while armed. Operations, each with its own capture window: prove; a prove call that is refused late (promise of the last aggregate member above its value) or early (a blinding generator of the public generator set is the identity); \
                verify_batch in RecoverAndVerify and RecoverOnly followed by drop of the returned masks; recovering verification of [valid seeded \
                member, invalid member] that fails at the final check or inside the per-proof loop; drop of RangeWitness, CommitmentOpening (and \
-               clone), ExtendedMask, RangeStatement; drop_in_place of a boxed statement followed by a volatile read of its bytes. Oracle: no \
+               clone), ExtendedMask, RangeStatement; drop_in_place of a boxed statement (also an aggregated one whose seed was set through the public field) followed by a volatile read of its bytes. Oracle: no \
                freed block (no statement byte) contains a blinding scalar / mask component, the seed, a 64-bit value in little-endian form, or a \
                16-word run spelling the top bits of value - promise as 0/1, (bit-1) or (bit-z) scalars (z from a first, tapped run of the same \
                deterministic case). Non-trivial = a case with a seed or degree >= 2 in which freed blocks >= 32 bytes were scanned; distinct by \
